@@ -7,6 +7,10 @@ RULES = {
          (r"TryCast|TRY_CAST", "comparison cast-unwrapping applied to TRY_CAST", "datafusion/optimizer/src/simplify_expressions/unwrap_cast.rs (+ physical simplifier)", "existing unit tests use try_cast on fallible casts"),
          (r"AndOr\(In|AndOr\(Not,Regex|NOT IN| IN \(", "IN-list set algebra in the simplifier ignores NULL", "datafusion/optimizer/src/simplify_expressions/expr_simplifier.rs (inlist_intersection / inlist_except)", "existing unit tests / plan expectations pin the current rewrite"),
          (r"^ref\||IN \(1\.5, 0\.0\)", "float IN lists compare by bits (-0.0 vs 0.0) while '=' normalises signed zero", "datafusion/physical-expr/src/expressions/in_list", "unit tests pin bit comparison")],
+ "C38": [(r"IS NOT DISTINCT FROM", "the unparser renders a null-equal join (IS NOT DISTINCT FROM keys) with `=`", "datafusion/sql/src/unparser/plan.rs (join constraints ignore NullEquality)", "not attempted in this session"),
+         (r"UNION", "the unparser flattens nested UNION / UNION ALL (or renders EXCEPT/INTERSECT ALL inputs) losing the inner set quantifier / producing unparseable text", "datafusion/sql/src/unparser/plan.rs (Union / Distinct handling)", "not attempted in this session"),
+         (r"IS TRUE", "the unparser drops the parentheses of `(NOT x) IS TRUE` (operator precedence of IS TRUE/IS FALSE over NOT)", "datafusion/sql/src/unparser/expr.rs", "not attempted in this session"),
+         (r".*", "unparser output is invalid SQL, does not parse in the target dialect, or is not equivalent to the plan (thorough-tier grammar)", "datafusion/sql/src/unparser", "not attempted in this session")],
  "C33": [(r".*", "float IN lists and CASE literal lookup compare by bits (-0.0 vs 0.0) while '=' normalises signed zero", "datafusion/physical-expr/src/expressions/{in_list,case}", "unit tests pin bit comparison")],
  "C47": [(r"Timestamp", "timestamp literal narrowing in try_cast_literal_to_type truncates (CAST(x AS Timestamp(ms)) = -1ms becomes x = 0s)", "datafusion/expr-common/src/casts.rs", "documented as allowed; tests pin truncation"),
          (r".*", "float IN compares by bits (-0.0 vs 0.0) while '=' normalises signed zero", "datafusion/physical-expr/src/expressions/in_list", "unit tests pin bit comparison")],
